@@ -19,23 +19,27 @@ PROPS = {
         "nontrivial_regex": r"^crash (fs|fetch|bcast|gettx|giveup|wait|crash|restart|include|drop|corrupttmp|tamper) .* => (?!err:)",
         "thorough_seeds": 1,
         "search_seeds": 1,
-        "rule": "in-crate harness (child module of `relayer`) runs the REAL Relayer::run (new_from_path, BlockStream reader, "
-                "BlobSubmitter::run, try_confirm_submission_from_last_session, submit_with_retry/try_submit, State::{read,write} with "
-                "temp-file + rename) against in-process fakes of the Celestia app gRPC (held BroadcastTx/GetTx, truthful GetTx against a fake "
-                "mempool+chain that decodes the sequencer heights out of the blobs), the sequencer gRPC (held GetSequencerBlock) and CometBFT "
-                "JSON-RPC, on a paused-time current-thread runtime; every blocking file-system operation is released one at a time, so a crash "
-                "(= dropping the runtime, queued fs op never executed) can be placed at every await: before/after the state read, between the "
-                "temp write and the rename of each of prepared / started / reverted state, before/after each RPC is served. quick: file "
-                "scenarios (garbage / empty / truncated / stale-but-wellformed temp file after a crash between temp write and rename; "
-                "truncated / garbage / empty / missing / semantically invalid / unknown-tag state file), EVERY crash point of a 6-block run "
-                "(eager fetch) and of 3-block runs (lazy fetch; start at height 17) x 4 outcomes of the in-flight BlobTx (lost, confirmed "
-                "while down, pending then confirmed, timed out then confirmed late = duplicate), sampled pairs of crash points, 40 seeded "
-                "random sessions of 40..160 controller steps (all BroadcastTx outcomes incl. gRPC timeout with/without acceptance, GetTx "
-                "not-found / height-0 / error, give-ups, include/drop, more blocks, crashes, temp-file corruption, tampering). thorough: all "
-                "crash points of 6- and 12-block runs, all pairs (first crash point x 10 recovery depths), 400 random sessions. Each step "
-                "is one trace line with state file, temp file, held requests, fake mempool and chain, relayer status; replayed through the "
-                "Lean model (result + full observable state must be equal) and the C11 spec is evaluated on the reported file / chain. "
-                "non-trivial = a step that was enabled (not err:*); distinct = distinct trace lines",
+        "rule": "in-crate harness (child module of `relayer`) runs the REAL Relayer::run (new_from_path, BlockStream reader, forwarding incl. "
+                "forward_once_free, BlobSubmitter::run, try_confirm_submission_from_last_session, submit_with_retry/try_submit, "
+                "State::{read,write} with temp-file + rename) against in-process fakes of the Celestia app gRPC (held BroadcastTx/GetTx, "
+                "truthful GetTx against a fake mempool+chain that decodes the sequencer heights out of the blobs), the sequencer gRPC (held "
+                "GetSequencerBlock) and CometBFT JSON-RPC, on a paused-time current-thread runtime; every blocking file-system operation is "
+                "released one at a time, so a crash (= dropping the runtime, queued fs op never executed) can be placed at every await: "
+                "before/after the state read, between the temp write and the rename of each of prepared / started / reverted state, "
+                "before/after each RPC is served. quick: file scenarios (garbage / empty / truncated / stale-but-wellformed temp file after "
+                "a crash between temp write and rename; truncated / garbage / empty / missing / semantically invalid / unknown-tag state "
+                "file), a torn write at EVERY fs operation of a fault-free run and of two recovery runs (the process dies inside the "
+                "operation: whatever file it was writing is cut short), the full-channel scenario (reader 129 blocks ahead of a submitter "
+                "that is still confirming: forward_once_free + paused stream), EVERY crash point of a 6-block run (eager fetch) and of "
+                "3-block runs (lazy fetch; start at height 17) x 4 outcomes of the in-flight BlobTx (lost, confirmed while down, pending "
+                "then confirmed, timed out then confirmed late = duplicate), sampled pairs of crash points, 40 seeded random sessions of "
+                "40..160 controller steps (all BroadcastTx outcomes incl. gRPC timeout with/without acceptance, GetTx not-found / height-0 / "
+                "gRPC error / error code / empty / negative height, give-ups, expiry between stretched polls, include/drop, more blocks, "
+                "crashes, torn writes, temp-file corruption, tampering). thorough: all crash points of 6- and 12-block runs, all first "
+                "crash points x 7 recovery depths (+ lazy-fetch pairs), 400 random sessions. Each step is one trace line with state file, "
+                "temp file, held requests, fake mempool and chain, relayer status; replayed through the Lean model (result + full "
+                "observable state must be equal) and the C11 spec is evaluated on the reported file / chain. non-trivial = a step that "
+                "was enabled (not err:*); distinct = distinct trace lines",
         "trusted_base": [KERNEL,
                          "hand-written model Astria/RelayerCrash/Model.lean tied to relayer/{submission,write/mod,mod,read,celestia_client}.rs "
                          "by the correspondence run of this check (state after every environment step)",
@@ -50,9 +54,10 @@ PROPS = {
                         "a crash loses exactly the volatile state: an fs operation that was queued but not started does not happen; a "
                         "partially written temp file is modelled by corrupting the temp file while the process is down; fsync / power-loss "
                         "semantics of the filesystem are not modelled",
-                        "not modelled: a block that does not fit the payload limit (pending_block hand-over: C12's model), a full "
-                        "submitter channel (128 blocks), graceful shutdown, failing sequencer RPCs (retried without state change); "
-                        "durations are abstracted: every timeout is an action the environment may take at any time (over-approximation)"],
+                        "not modelled: a block that does not fit the payload limit (pending_block hand-over: C12's model), graceful "
+                        "shutdown, failing sequencer RPCs (retried without state change), a BroadcastTx response whose hash differs from "
+                        "the locally computed one; durations are abstracted: every timeout / expiry is an action the environment may take "
+                        "at any time (over-approximation; which of `next poll` / `expired` happened is read off the implementation)"],
         "explanation": "invariant proved by induction over ALL sequences of benign environment actions (crash anywhere, any RPC outcome, any "
                        "interleaving): file readable, recorded => confirmed up to it, confirmed heights gap-free, process never ends by "
                        "itself; correspondence: model state = observed state after every controller step",
